@@ -325,6 +325,12 @@ mzd_t *mzd_from_jcf(const char *fn, int verbose) {
     goto from_jcf_close_fh;
   }
 
+  if (m < 0 || n < 0) {
+    if (verbose) printf("Expected non-negative dimensions but found %d x %d\n", m, n);
+    retval = 1;
+    goto from_jcf_close_fh;
+  }
+
   if (verbose)
     printf("reading %lu x %lu matrix with at most %ld non-zero entries (density at most: %6.5f)\n",
            (unsigned long)m, (unsigned long)n, (unsigned long)nonzero,
@@ -337,8 +343,9 @@ mzd_t *mzd_from_jcf(const char *fn, int verbose) {
 
   while (fscanf(fh, "%ld\n", &j) == 1) {
     if (j < 0) { i++, j = -j; }
-    if (((j - 1) >= n) || (i >= m))
-      m4ri_die("trying to write to (%ld,%ld) in %ld x %ld matrix\n", i, j - 1, m, n);
+    /* j == 0 is not a column index, i < 0 means that the first entry does not start a row */
+    if ((j == 0) || (i < 0) || ((j - 1) >= n) || (i >= m))
+      m4ri_die("trying to write to (%ld,%ld) in %ld x %ld matrix\n", i, j - 1, (long)m, (long)n);
     mzd_write_bit(A, i, j - 1, 1);
   };
 
